@@ -1,7 +1,7 @@
 (** C11 - A caught error leaves no trace: try is all-or-nothing.
     Property theorems only; every proof is [exact lemma]. *)
 From Coq Require Import List ZArith NArith Bool.
-From UV Require Import Model.Node Model.Sig Model.Exec Model.TreeOk
+From UV Require Import Model.Node Model.Sig Model.Exec Model.TreeOk Model.TryPre
   Proofs.SimBase Proofs.SigMono Proofs.SigSound Proofs.Frame Proofs.TreeOk.
 Import ListNotations.
 
@@ -61,6 +61,53 @@ Proof.
   exists 2, 1, [SInt 2; SInt 3; SInt 4; SInt 5]. split; [auto|]. vm_compute. discriminate.
 Qed.
 
+(** Any number of handlers, any position in the chain: when the function being tried fails AT ANY
+    POINT, the next one starts from exactly the try's original arguments [T] (with the new error
+    value beneath them iff it asks for it), the same values [R] beneath, the same hidden context
+    stack, fill stack, fill boundaries and call depth - also when the failed function was itself a
+    handler that had been given an error value [e] (which is gone).  [try_loop] is the loop of
+    algorithm::try_ as [Exec.exec] runs it for `Mod MTry` with two or more functions. *)
+Theorem C11_try_every_handler_sees_original :
+  forall pknown psem arrsem unpacksem fmtsem asm,
+  asm_okb asm = true ->
+  forall ts any sf f sh g hs (te : bool) fuel s (T : list sval) (e : sval) (R : list sval) c s',
+  tree_okb asm f = true -> stored_okb sf f = true -> sua sf = 0 -> suo sf = 0 ->
+  length T = sa ts -> sa sf <= sa ts + (if te then 1 else 0) ->
+  stk s = T ++ (if te then [e] else []) ++ R ->
+  Exec.exec pknown psem arrsem unpacksem fmtsem asm fuel f s = Err c s' -> c = false ->
+  try_loop (Exec.exec pknown psem arrsem unpacksem fmtsem asm fuel) ts any sf f ((sh, g) :: hs) te s =
+  try_loop (Exec.exec pknown psem arrsem unpacksem fmtsem asm fuel) ts any sh g hs
+    (any && Nat.eqb (sa sh + (so ts - so sh)) (sa ts + 1))
+    (RT (T ++ (if any && Nat.eqb (sa sh + (so ts - so sh)) (sa ts + 1) then [errval] else []) ++ R)
+        (und s) (fills s) (fbs s) (depth s)).
+Proof.
+  exact (fun pk ps ar un fm asm HA ts any sf f sh g hs te fuel s T e R c s' Tf Of =>
+    try_handler_sees_original pk ps ar un fm asm (asm_okb_sound asm HA) ts any sf f sh g hs te fuel s T e R c s'
+      (tree_okb_sound asm f Tf) (stored_okb_sound sf f Of)).
+Qed.
+
+(** record of the defect repaired by fix 5e30998 (found by the C02 frame search): with the loop as
+    it was at the pinned commit, a try of three functions whose first handler was given the error
+    value and fails, and whose last handler has as many outputs as the try, ends with the stale
+    error value still on the stack: four values where its signature |3.2 on four values leaves
+    three; the loop as it is now leaves [2; 1; 4] *)
+Theorem C11_try_stale_error_refuted_pre :
+  let ex := Exec.exec zknown zsem no_arr no_unpack no_fmt [] 20 in
+  fst try3_sig = Sig 3 2 0 0 /\
+  stack_of (try_loop_pre ex (fst try3_sig) (snd try3_sig) (fst try3_f) (snd try3_f) [try3_h1; try3_h2] false try3_start)
+    = Some [SInt 2; SInt 1; errval; SInt 4] /\
+  stack_of (try_loop ex (fst try3_sig) (snd try3_sig) (fst try3_f) (snd try3_f) [try3_h1; try3_h2] false try3_start)
+    = Some [SInt 2; SInt 1; SInt 4].
+Proof. vm_compute. repeat split; reflexivity. Qed.
+
+(** non-vacuity for three functions: the tree meets the premises of the frame theorem and the
+    interpreter model runs it to the stack the implementation gives *)
+Example C11_nonvacuous_three :
+  let t := Mod MTry [try3_f; try3_h1; try3_h2] in
+  asm_okb [] = true /\ tree_okb [] t = true /\ node_sig t = Some (Sig 3 2 0 0) /\
+  zrun 50 [] (Run [Push (SInt 4); Push (SInt 3); Push (SInt 2); Push (SInt 1); t]) = (0%N, [2%Z; 1%Z; 4%Z], 0%N).
+Proof. vm_compute. repeat split; reflexivity. Qed.
+
 Example C11_nonvacuous :
   let asm : list node := [] in
   let f := Run [Prim 4 1 0; Push (SInt 0); Push (SOpq 9); Prim 12 2 0] in   (* ⍤"x"0 ◌ *)
@@ -74,3 +121,5 @@ Print Assumptions C11_try_rollback.
 Print Assumptions C11_err_restores_scoped.
 Print Assumptions C11_try_success.
 Print Assumptions C11_case_passthrough_refuted_pre.
+Print Assumptions C11_try_every_handler_sees_original.
+Print Assumptions C11_try_stale_error_refuted_pre.
